@@ -209,7 +209,16 @@ def upload(rng, gname=None):
         return send(L, fr('Request', p, b, l))
     for _ in range(rng.randint(3, 10)):
         steps.append(req(rng.randint(1, nle)))
-    if rng.random() < 0.7:
+    if rng.random() < 0.5 and nle == 1:
+        # a fresh leecher is unchoked on its bitfield, never declares interest, loads a piece, loses the slot
+        # through the next rotation (not interested) and asks for the same (already loaded) piece again
+        L = 2
+        p = rng.choice(sorted(own))
+        ln = min(plens[p], rng.choice([10, 16384]))
+        steps += [{'op': 'connect', 'peer': L}, send(L, hs()), send(L, bf(set())), send(L, fr('Request', p, 0, ln)),
+                  {'op': 'advance', 'ms': 31000, 'slice': 1000},
+                  send(L, fr('Request', p, 0, ln)), send(L, fr('Request', p, 0, 1))]
+    elif rng.random() < 0.7:
         # let the choke rotation run: stats need two 10 s ticks, then the 10 s rotation timer
         L = rng.randint(1, nle)
         if rng.random() < 0.6:
